@@ -45,8 +45,10 @@ def conic_sag(r, R, k):
     return r * r / (R * (1 + math.sqrt(1 - (1 + k) * r * r / (R * R))))
 
 
-def gen_config(rng, name):
-    """returns dict(name, params, spec, scale) ; scale = characteristic path length (for tolerances)"""
+def gen_config(rng, name, edits=None):
+    """returns dict(name, params, spec, scale, edits) ; scale = characteristic path length (for tolerances).
+    edits: None = with probability 1/2 the stigmatic prescription is reached through an edit history
+    (see add_edit_history)"""
     u = rng.uniform
     p = {}
     if name == 'parab':
@@ -139,20 +141,29 @@ def gen_config(rng, name):
         spec = _spec(INF, [_std(R, f, ['ideal', n, 0.0], -uu * uu, True)], ['EPD', epd], False)
         scale = n * f + epd
     elif name in ('aplanat', 'aplanat_immersed'):
-        nh = u(1.4, 2.0)
-        Rh = -u(30, 120)
-        fh = Rh / (1 - nh)
-        n = u(1.3, 4.0)
-        # keep n * sin(U) of the final cone below ~0.85
-        sinu = u(0.03, min(0.6, 0.85 / n))
-        epd = 2 * fh * math.tan(math.asin(sinu)) * 0.98
-        sag = abs(conic_sag(epd / 2, Rh, -nh * nh))
-        d1 = sag * 1.1 + u(0.5, 3.0)
-        gap = u(0.1, 0.6) * fh
-        s = fh - gap
-        R1 = s / (1 + n)
-        s1 = R1 * (1 + n) / n
-        t2 = u(0.1, 0.5) * s1
+        while True:
+            nh = u(1.4, 2.0)
+            Rh = -u(30, 120)
+            fh = Rh / (1 - nh)
+            n = u(1.3, 4.0)
+            # keep n * sin(U) of the final cone below ~0.85
+            sinu = u(0.03, min(0.6, 0.85 / n))
+            epd = 2 * fh * math.tan(math.asin(sinu)) * 0.98
+            sag = abs(conic_sag(epd / 2, Rh, -nh * nh))
+            d1 = sag * 1.1 + u(0.5, 3.0)
+            gap = u(0.1, 0.6) * fh
+            s = fh - gap
+            R1 = s / (1 + n)
+            s1 = R1 * (1 + n) / n
+            t2 = u(0.1, 0.5) * s1
+            if name == 'aplanat_immersed':
+                break
+            # the meniscus must have a positive edge thickness at the rim ray (the rays exist)
+            h3 = s * math.tan(math.asin(sinu))          # upper bound of the ray height on the front face
+            R2 = s1 - t2
+            if h3 < 0.95 * R1 and h3 < 0.95 * R2 and \
+                    t2 - (R1 - math.sqrt(R1 * R1 - h3 * h3)) + (R2 - math.sqrt(R2 * R2 - h3 * h3)) > 0.05 * t2 + 0.2:
+                break
         p = {'nh': nh, 'Rh': Rh, 'n': n, 'epd': epd, 'd1': d1, 'gap': gap, 't2': t2}
         surfs = [_std(INF, d1, ['ideal', nh, 0.0], None, True), _std(Rh, gap, 'air', -nh * nh)]
         if name == 'aplanat':
@@ -163,7 +174,11 @@ def gen_config(rng, name):
         scale = nh * d1 + fh + n * s1
     else:
         raise ValueError(name)
-    cfg = {'name': name, 'params': p, 'spec': spec, 'scale': scale, 'image_in_glass': None}
+    cfg = {'name': name, 'params': p, 'spec': spec, 'scale': scale, 'image_in_glass': None, 'edits': []}
+    if edits is None:
+        edits = rng.random() < 0.5
+    if edits:
+        add_edit_history(rng, cfg)
     if name in IMMERSED:
         # the image plane lies inside the last glass.  True: the image surface is declared in that glass
         # (nothing happens at it);  False: optiland's default, air behind the image plane
@@ -174,10 +189,69 @@ def gen_config(rng, name):
 IMMERSED = ('ellipsoid_lens', 'aplanat_immersed')
 
 
+def add_edit_history(rng, cfg):
+    """the lens is first BUILT with a different prescription and then edited through the public setters
+    (Optic.set_conic / set_radius / set_thickness / set_index) until it is the stigmatic one: whatever a
+    surface caches at construction must follow the edits.  cfg['spec'] becomes the initial (wrong)
+    prescription, cfg['edits'] the list (setter, surface_number, value) applied after building, and
+    cfg['final_spec'] keeps the stigmatic prescription."""
+    import copy
+    final = cfg['spec']
+    init = copy.deepcopy(final)
+    edits = []
+    for j, (s0, s1) in enumerate(zip(init['surfaces'], final['surfaces'])):
+        num = j + 1
+        conic_edit = False
+        if 'conic' in s1 and rng.random() < 0.9:
+            s0['conic'] = s1['conic'] + rng.choice([-1, 1]) * rng.uniform(0.05, 0.6)
+            edits.append(['conic', num, s1['conic']])
+            conic_edit = True
+        elif 'conic' not in s1 and math.isfinite(s1['radius']) and rng.random() < 0.3:
+            s0['conic'] = rng.uniform(-0.5, 0.3)       # a sphere that was first entered as a conic
+            edits.append(['conic', num, 0.0])
+            conic_edit = True
+        if math.isfinite(s1['radius']) and rng.random() < 0.5:
+            # a wrong radius, or a surface that was first entered flat (Plane -> StandardGeometry on set_radius)
+            # (a flat surface built WITH a conic drops it - Plane has no k - so flat-first is only used when
+            # the history also sets the conic, or there is none)
+            flat_ok = conic_edit or not s1.get('conic')
+            s0['radius'] = INF if (flat_ok and rng.random() < 0.3) else s1['radius'] * rng.uniform(1.05, 1.4)
+            edits.append(['radius', num, s1['radius']])
+        if rng.random() < 0.5:
+            s0['thickness'] = s1['thickness'] * rng.uniform(0.7, 1.3)
+            edits.append(['thickness', num, s1['thickness']])
+        if isinstance(s1.get('material'), list) and s1['material'][0] == 'ideal' and rng.random() < 0.5:
+            s0['material'] = ['ideal', s1['material'][1] + rng.uniform(0.05, 0.3), 0.0]
+            edits.append(['index', num, s1['material'][1]])
+    if math.isfinite(final['object_thickness']) and rng.random() < 0.5:
+        init['object_thickness'] = final['object_thickness'] * rng.uniform(0.7, 1.3)
+        edits.append(['thickness', 0, final['object_thickness']])
+    rng.shuffle(edits)
+    cfg['spec'] = init
+    cfg['final_spec'] = final
+    cfg['edits'] = edits
+    return cfg
+
+
+def apply_edits(optic, edits):
+    for kind, num, value in edits:
+        if kind == 'conic':
+            optic.set_conic(value, num)
+        elif kind == 'radius':
+            optic.set_radius(value, num)
+        elif kind == 'thickness':
+            optic.set_thickness(value, num)
+        elif kind == 'index':
+            optic.set_index(value, num)
+        else:
+            raise ValueError(kind)
+
+
 def build(cfg):
     import lensgen
     warnings.simplefilter('ignore')
     o = lensgen.build(cfg['spec'])
+    apply_edits(o, cfg.get('edits') or [])
     if cfg.get('image_in_glass'):
         img = o.surface_group.surfaces[-1]
         img.material_post = img.material_pre
@@ -219,7 +293,7 @@ def tolerances(cfg, min_cos=1.0):
     return tol_mm, tol_mm / (WL * 1e-3)
 
 
-def oracle(cfg, rng, n_rays=24, wavefront=True, psf=True, num_rays_psf=24, grid=64):
+def oracle(cfg, rng, n_rays=24, wavefront=True, psf=True, samplings=None):
     """the property, stated on the implementation.  returns the list of ALL violations (empty = holds)"""
     from optiland.wavefront import Wavefront
     from optiland.psf import FFTPSF
@@ -271,16 +345,44 @@ def oracle(cfg, rng, n_rays=24, wavefront=True, psf=True, num_rays_psf=24, grid=
             bad.append({'kind': 'wavefront-raises', 'error': type(e).__name__ + ': ' + str(e)[:200]})
     # (4) Strehl ratio one
     if psf:
-        try:
-            ps = FFTPSF(o, (0.0, 0.0), WL, num_rays=num_rays_psf, grid_size=grid)
-            s = float(ps.strehl_ratio())
-            if math.isnan(s):
-                bad.append({'kind': 'strehl-nan'})
-            elif not (abs(s - 1.0) <= 1e-9):
-                bad.append({'kind': 'strehl-not-one', 'strehl': s})
-        except Exception as e:
-            bad.append({'kind': 'psf-raises', 'error': type(e).__name__ + ': ' + str(e)[:200]})
+        for nr_, grid in (samplings or psf_samplings(rng)):
+            try:
+                ps = FFTPSF(o, (0.0, 0.0), WL, num_rays=nr_, grid_size=grid)
+                s = float(ps.strehl_ratio())
+                if math.isnan(s):
+                    bad.append({'kind': 'strehl-nan', 'num_rays': nr_, 'grid_size': grid})
+                elif not (abs(s - 1.0) <= 1e-9):
+                    bad.append({'kind': 'strehl-not-one', 'strehl': s, 'num_rays': nr_, 'grid_size': grid})
+            except Exception as e:
+                bad.append({'kind': 'psf-raises', 'num_rays': nr_, 'grid_size': grid,
+                            'error': type(e).__name__ + ': ' + str(e)[:200]})
+            if bad and bad[-1]['kind'].startswith(('strehl', 'psf')):
+                break
     return bad
+
+
+PSF_CLASSES = [[(24, 64), (16, 128), (32, 64)],              # even rays, even grid
+               [(25, 64), (17, 128), (33, 64)],              # odd rays, even grid  (odd difference)
+               [(24, 65), (16, 129), (32, 201)],             # even rays, odd grid  (odd difference)
+               [(25, 65), (17, 129), (33, 255), (21, 201)]]  # odd rays, odd grid
+
+
+def psf_sampling_cycle(i, rng):
+    """the i-th instance of a run gets parity class i mod 4 (every class is exercised by any 4 instances)"""
+    return rng.choice(PSF_CLASSES[i % 4])
+
+
+def psf_samplings(rng, k=2):
+    """(num_rays, grid_size) pairs: all four parity classes of (num_rays, grid_size) - hence both parities of
+    grid_size - num_rays - are drawn with equal weight; odd grids (65, 129, 201, 255) included"""
+    classes = [[(24, 64), (16, 128), (32, 64)],            # even, even
+               [(25, 64), (17, 128), (33, 64)],            # odd rays, even grid  (odd difference)
+               [(24, 65), (16, 129), (32, 201)],           # even rays, odd grid  (odd difference)
+               [(25, 65), (17, 129), (33, 255), (21, 201)]]  # odd, odd
+    picks = rng.sample(range(4), k)
+    if all(p < 2 for p in picks):
+        picks[-1] = rng.choice([2, 3])       # every call exercises an odd grid
+    return [rng.choice(classes[c]) for c in picks]
 
 
 def image_cone(optic, w=WL):
